@@ -2,21 +2,22 @@ CONSTANTS
   NParts = 1
   Part = 0
   NConns = 1
-  NUp = 2
-  NDown = 2
+  NUp = 0
+  NDown = 0
   MaxTemp = 0
   MaxPerm = 0
-  Fields <-F4
-  ArgChoices <-ArgsFew
-  WithMain = FALSE
-  StdinClose = FALSE
-  Mode = "copy"
+  Fields <-F3
+  ArgChoices <-ArgsOnlyNone
+  WithMain = TRUE
+  StdinClose = TRUE
+  Mode = "socks"
   DialFails = FALSE
   SfScripted = TRUE
-  EnvLite = FALSE
+  EnvLite = TRUE
   AsIs_Spin = FALSE
   AsIs_SharedConfig = FALSE
   Mut = "none"
-SPECIFICATION GenSpec
+SPECIFICATION Spec
 INVARIANTS TypeOK CopyLaw SocksClosedOnce SfClosedOnce ReplyLaw ConfigIsolation ConfigSeenWhenDue LoopEndsOnlyOnPerm LnClosedByLoop NoSpin NoLeak NoStuck
+PROPERTIES HandlersLeaveLoopAlone ShutdownReachesAll HandlerEnds Replied LoopEnds ShutdownExits
 CHECK_DEADLOCK FALSE
